@@ -73,7 +73,10 @@ func scanMonitor(out string, size int) string {
 			}
 			state = "ann"
 		case "O":
-			if state != "kw" && state != "ann" && state != "none" && state != "body" {
+			// ContextOpen is a single-byte event emitted at directive-start positions; its pairing with
+			// a directive is the core's business (C11: "( (" is rejected there), so a repeated '(' is not
+			// a scanner-level bracketing fault
+			if state != "kw" && state != "ann" && state != "none" && state != "body" && state != "open" {
 				return fmt.Sprintf("context-open [%d] in state %s", l.b, state)
 			}
 			if state == "kw" || state == "ann" {
@@ -108,6 +111,22 @@ func init() {
 				d := caseDisagreement(c)
 				d.Lean = m
 				d.Prop = "C12,C01"
+				rep.Monitor = append(rep.Monitor, d)
+			}
+		}
+	}
+}
+
+func init() {
+	postChecks["proj"] = func(cases []*Case, rep *Report) {
+		for _, c := range cases {
+			if c.Op != "proj" {
+				continue
+			}
+			if strings.HasPrefix(c.GoOut, "PANIC") || strings.HasPrefix(c.GoOut, "FATAL") || strings.HasPrefix(c.GoOut, "TIMEOUT") {
+				d := caseDisagreement(c)
+				d.Lean = "crash: " + c.GoOut + " " + c.Detail
+				d.Prop = "C01"
 				rep.Monitor = append(rep.Monitor, d)
 			}
 		}
